@@ -319,6 +319,23 @@ def gen_bin_cases(ctx, per_cell):
                     x = [k, gen_value(rng, k), rng.choice(units_of(k))]
                     return with_alias(rng, via_inplace(rng, x)) if sign_ok(k, x[1]) else x
                 cases.append({'t': 'bin', 'op': op, 'a': operand(ka), 'b': operand(kb)})
+            if valid and op in ('add', 'sub') and ka != 'num' and kb != 'num':
+                # exactly equal operands (x - x, and the same magnitude written in two units where that is exact)
+                for _ in range(per_cell):
+                    v = rng.choice([0.0, 1.0, 2.0, 0.5, 720.0, gen_value(rng, ka)])
+                    if not (sign_ok(ka, v) and sign_ok(kb, v)):
+                        continue
+                    u = rng.choice([x for x in units_of(ka) if x in units_of(kb)])
+                    cases.append({'t': 'bin', 'op': op, 'a': [ka, v, u], 'b': [kb, v, u]})
+                if base(ka) == 'AngularPosition':
+                    cases.append({'t': 'bin', 'op': op, 'a': [ka, 2.0, 'rot'], 'b': [kb, 720.0, 'deg']})
+                    cases.append({'t': 'bin', 'op': op, 'a': [ka, 90.0, 'deg'], 'b': [kb, 5400.0, 'arcmin']})
+            if 'num' in (ka, kb) and op in ('add', 'sub'):
+                # a number of exactly zero is still a number: `0 + q`, `q - 0.0` must raise like any other number
+                for z in (0, 0.0, -0.0):
+                    x = operand(ka if ka != 'num' else kb)
+                    if valid_operand(x):
+                        cases.append({'t': 'bin', 'op': op, 'a': ['num', z] if ka == 'num' else x, 'b': ['num', z] if kb == 'num' else x})
     return cases
 
 
@@ -337,7 +354,9 @@ def eval_bin(ctx, cases):
             ctx.count('skipped: operand violates its own constraint')
             continue
         a, b = build(c['a']), build(c['b'])
+        snap = tuple((x.value, x.unit) if hasattr(x, 'unit') else x for x in (a, b))
         impl.append(impl_outcome(lambda: OPS[c['op']](a, b)))
+        c['_pure'] = snap == tuple((x.value, x.unit) if hasattr(x, 'unit') else x for x in (a, b))
         lines.append(f"u bin {c['op']} {desc(c['a'])} {desc(c['b'])}")
         keep.append(c)
     model = ctx.driver.ask(lines) if ctx.driver.available else [None] * len(lines)
@@ -345,6 +364,9 @@ def eval_bin(ctx, cases):
         ctx.count(f"op {c['op']}")
         ctx.count('outcome ' + (out[1] if out[0] == 'err' else 'returned'))
         ctx.case_done(c, nontrivial=out[0] == 'ok')
+        if not c.pop('_pure', True):
+            ctx.violation(c, {'impl': out, 'why': 'a binary operation modified one of its operands'})
+            continue
         verdict = oracle_bin(ctx, c, out)
         if verdict and verdict[0] == 'known':
             ctx.known_finding(verdict[1], c)
@@ -538,7 +560,12 @@ def eval_cmp(ctx, cases):
         if not (valid_operand(a) and valid_operand(b)):
             continue
         qa, qb = build(a), build(b)
-        impl.append(impl_outcome(lambda: CMPS[c['c']](qa, qb)))
+        snap = (qa.value, qa.unit, qb.value, qb.unit)
+        first = impl_outcome(lambda: CMPS[c['c']](qa, qb))
+        # a comparison is a pure query: the operands are left as they were and asking again gives the same answer
+        again = impl_outcome(lambda: CMPS[c['c']](qa, qb))
+        c['_pure'] = (snap == (qa.value, qa.unit, qb.value, qb.unit)) and again == first
+        impl.append(first)
         lines.append(f"u cmp {c['c']} {desc(a)} {desc(b)}")
         keep.append(c)
     model = ctx.driver.ask(lines) if ctx.driver.available else [None] * len(lines)
@@ -548,6 +575,9 @@ def eval_cmp(ctx, cases):
         sa, sb = si(*a[:3]), si(*b[:3])
         scale = max(abs(sa), abs(sb))
         gap = abs(sa - sb)
+        if not c.pop('_pure', True):
+            ctx.violation(c, {'why': 'a comparison modified one of its operands, or answered differently when repeated on the same objects'})
+            continue
         if out[0] != 'bool':
             ctx.violation(c, {'why': 'comparison of same-family quantities did not return a boolean', 'impl': out})
             continue
